@@ -589,8 +589,13 @@ func exhaustive(c *Config) {
 
 func generate(c *Config) {
 	r := c.Rng
+	if only == "chain" {
+		chainFamily(c)
+		return
+	}
 	exhaustive(c)
 	scaleFamily(c)
+	chainFamily(c)
 	for i := c.Count(4000, 120000); i > 0; i-- {
 		k, in := genDevsCase(r, i%3, false)
 		emit(c, k, in)
